@@ -161,6 +161,14 @@ def case_st(draw):
     if grp != "plain":
         case["group"] = grp
         case["cfg"]["breaker"] = draw(gen.breaker_spec())
+        if grp == "breaker":
+            # make the breaker interaction matter: low threshold, classes that trip, and often a deciding handler
+            spec = case["cfg"]["breaker"]
+            spec["threshold"] = draw(st.sampled_from([1, 1, 2]))
+            if gen.chance(draw, 0.6, "c12-trip"):
+                spec["trip_on"] = list(gen.ALL)
+            if case["calls"][0].get("handler") is None and gen.chance(draw, 0.5, "c12-handler"):
+                case["calls"][0]["handler"] = draw(st.lists(st.sampled_from(["sleep", "sleep", "defer", "defer", "abort"]), min_size=1, max_size=4))
         if grp == "noretry":
             case["placement"] = {"attempt_hooks": pl.get("attempt_hooks", "call")}
     return case
@@ -265,7 +273,7 @@ PROP = Property(
         "with >= 1 granted retry, or a breaker / no-retry group case. evaluations counts runs (cases x entry points)."
     ),
     streams=[
-        Stream("pairwise", check, strategy=case_st(), quick=2500, thorough=60000),
+        Stream("pairwise", check, strategy=case_st(), quick=4000, thorough=60000),
         Stream("live_attempt_timeout", check_live_timeout, strategy=live_timeout_case(), quick=32, thorough=300, per_shard_min=2),
     ],
 )
